@@ -1,6 +1,8 @@
 """Small valid objects of the remaining formats (rpms, modules, extra files, discinfo), built through the public API."""
 
-COMPOSE = {"id": "Fedora-23-20160102.n.0", "type": "nightly", "date": "20160102", "respin": 0, "label": None, "final": False}
+# (type, date and respin deliberately differ from what the id would decode to: they are facts of their own, a reader that
+#  re-derives them from the id - as the pre-0.3 formats require - is seen)
+COMPOSE = {"id": "Fedora-23-20160102.n.0", "type": "production", "date": "20151231", "respin": 4, "label": None, "final": False}
 
 
 def set_compose(obj, c=None):
